@@ -5,7 +5,7 @@ from lib.facts import CheckerError
 TRANSPARENT = (
     "::Try::branch", "::Clone::clone", "::Deref::deref", "::DerefMut::deref_mut", "::Into::into", "::From::from",
     "::Borrow::borrow", "::AsRef::as_ref", "::IntoIterator::into_iter", "::Rc::<T>::new", "::Rc::<T, A>::new",
-    "::Option::<&T>::copied", "::Option::<&T>::cloned", "::ToOwned::to_owned", "::Box::<T>::new",
+    "::Option::<&T>::copied", "::Option::<&T>::cloned", "::ToOwned::to_owned", "::Box::<T>::new", "::ToString::to_string", "::String::as_str", "::String::as_mut_str", "::Rc::<T, A>::as_ref",
 )
 
 
@@ -436,3 +436,77 @@ def callers_of(crates, pred):
                     if pred(d) or pred(r):
                         out.setdefault(name, []).append(bi)
     return out
+
+
+class CallGraph:
+    """Whole-workspace call graph over resolved callees. A call whose generic arguments mention a closure (or fn item)
+    gets an edge to that closure too: the callee may invoke it (this is how iterator adapters and sort_by are seen)."""
+
+    def __init__(self, crates):
+        self.fns = {}
+        for cr in crates:
+            for name, f in cr.mir.items():
+                self.fns[name] = f
+        self.out = {}
+        self.sites = {}
+        for name, f in self.fns.items():
+            es = set()
+            for bi, b in enumerate(f["blocks"]):
+                t = b["t"]
+                if t["k"] != "call":
+                    continue
+                fn = t["func"].get("fn")
+                if fn is None:
+                    # indirect call through a local: closure types show up in the operand type
+                    continue
+                d = fn["def"]
+                r = fn.get("res", d)
+                es.add(r)
+                es.add(d)
+                self.sites.setdefault((name, r), []).append(bi)
+                for c in fn.get("closures", []):
+                    es.add(c[3:] if c.startswith("fn:") else c)
+            # closures created in this body are reachable from it
+            for b in f["blocks"]:
+                for s in b["s"]:
+                    if s["k"] == "assign" and s["rv"]["k"] == "agg" and s["rv"].get("kind") == "closure":
+                        es.add(s["rv"]["closure"])
+            self.out[name] = es
+
+    def reaching(self, pred):
+        """names of functions from which a function satisfying pred is reachable (including those functions)"""
+        targets = {n for n in self.fns if pred(n)}
+        # also external targets (not in self.fns): callers that call them directly
+        rev = {}
+        for a, bs in self.out.items():
+            for b in bs:
+                rev.setdefault(b, set()).add(a)
+        ext = {b for b in rev if b not in self.fns and pred(b)}
+        seen = set(targets) | ext
+        st = list(seen)
+        while st:
+            x = st.pop()
+            for a in rev.get(x, ()):
+                if a not in seen:
+                    seen.add(a)
+                    st.append(a)
+        return seen
+
+    def callers(self, pred):
+        out = {}
+        for a, bs in self.out.items():
+            for b in bs:
+                if pred(b):
+                    out.setdefault(a, set()).add(b)
+        return out
+
+    def reachable_from(self, roots):
+        seen = set(roots)
+        st = list(roots)
+        while st:
+            x = st.pop()
+            for b in self.out.get(x, ()):
+                if b not in seen:
+                    seen.add(b)
+                    st.append(b)
+        return seen
